@@ -62,8 +62,27 @@ def _case(draw):
     if draw(st.integers(0, 5)) == 0:
         case["shared"] = draw(st.sampled_from(["list", "dict"]))
         return case
-    mode = draw(st.sampled_from(["perturb", "perturb", "perturb", "nonplain"]))
-    if mode == "perturb":
+    mode = draw(st.sampled_from(["perturb", "perturb", "perturb", "perturb", "nonplain", "nonplain", "missing-default"]))
+    if mode == "missing-default":
+        # a dict of the value holds a member equal to what a defaultdict / Counter invents for an absent key; the
+        # perturbed value is such a mapping *without* that key (its key set differs)
+        from ..codec import Wrapped
+        ps = [p for p in values.paths(v) if isinstance(values.get_at(v, p), dict)]
+        if not ps:
+            v, ps = {"k": v}, [()]
+        p = draw(st.sampled_from(ps))
+        d = dict(values.get_at(v, p))
+        kind, key, dflt = draw(st.sampled_from([("defaultdict", "hits", 0), ("defaultdict_list", "tags", []),
+                                               ("counter", "n", 0), ("defaultdict", 7, 0)]))
+        d[key] = dflt
+        v = values.replace_at(v, p, d)
+        less = dict(d)
+        del less[key]
+        case["value"] = v
+        case["perturbed"] = values.replace_at(v, p, Wrapped(kind, less))
+        case["depth"] = len(p) + 1
+        case["missing_default"] = True
+    elif mode == "perturb":
         w, path = draw(values.perturb(v))
         case["perturbed"] = w
         case["depth"] = len(path)
@@ -78,7 +97,15 @@ def _case(draw):
             case["depth"] = len(p) + 1
         elif isinstance(target, dict) and draw(st.booleans()):
             w = dict(target)
-            w["zoo"] = item
+            how = draw(st.sampled_from(["value", "value", "ellipsis-entry", "ellipsis-key"]))
+            if how == "value":
+                w["zoo"] = item
+            elif how == "ellipsis-entry":
+                w[...] = ...                # schema notation ("more keys may follow"), not part of a plain value
+            else:
+                w[...] = draw(_scalars)
+            # (keys of other hashable kinds - tuples, frozensets, Decimals - are not judged: the statement lists the
+            # kinds of values, and the schema made for such a dict does denote exactly that dict)
             case["nonplain"] = values.replace_at(v, p, w)
             case["depth"] = len(p) + 1
         else:
@@ -171,16 +198,21 @@ def check(case, ctx):
         if same(w, v):
             ctx.label("perturbation-is-identity")
             return
-        if exempt(w, v) or values.has_zoo(case["perturbed"]):
+        if not case.get("missing_default") and (exempt(w, v) or values.has_zoo(case["perturbed"])):
             ctx.label("perturbation-exempt")
             return
+        before = copy.deepcopy(w)
         try:
             res = validate(S, w)
         except Exception as e:  # noqa
             raise Violation("validate-raises", f"validate(from_native({v!r}), {w!r}) raised {e!r}")
         if not res.has_errors():
             raise Violation("accepts-different-value",
-                            f"from_native({v!r}) accepts the different value {w!r}")
+                            f"from_native({v!r}) accepts the different value {before!r}")
+        if case.get("missing_default"):
+            ctx.label("mapping-with-default-lacking-a-key")
+            if w != before:
+                raise Violation("validated-value-mutated", f"validate(from_native({v!r}), ...) changed the value {before!r} into {w!r}")
         ctx.label("perturbed-rejected", "depth:%d" % min(depth, 3))
         if depth >= 1:
             ctx.mark_nontrivial(case, sample_class=("perturb", min(depth, 3), type(v).__name__))
